@@ -380,7 +380,7 @@ var (
 	wfTokStr    = []string{"while", "do", "end", "::", "=>", "%", "begin"}
 	wfTokRegex  = []string{`[a-z]+`, `[0-9]+`, `"[^"]*"`, `[A-Z][0-9A-Z_]*`, `0x[0-9A-F]+`, `#[a-z]*`, `\x2F\x2F[a-z ]*`}
 	wfTokPredef = []string{"$WS", "$DIGIT", "$LETTER", "$ID", "$NUMBER", "$STRING", "$COMMENT"}
-	wfNTPool    = []string{"expr", "term", "stmt", "a", "b", "list", "x_1", "item", "opt", "star", "plus", "group", "gen1_group", "gen2_opt", "gen_a_star", "gen_plus_star", "gen_term_opt"}
+	wfNTPool    = []string{"expr", "term", "stmt", "a", "b", "list", "x_1", "item", "opt", "group", "factor", "decl", "args", "block", "tail", "gen", "genx", "op_group"}
 	wfTokNames  = []string{"ID", "NUM", "STR", "WS", "COMMENT", "OP_1", "KW", "HEX", "EOL"}
 )
 
